@@ -58,8 +58,9 @@ def const_int(n):
     return None
 
 
-def helper_limit(fb, callee_u, argno):
-    """limit with which a helper writes into the char* parameter #argno (spxSnprintf(buf, N, ...)), or None"""
+def helper_limit(fb, callee_u, argno, call_args=None):
+    """limit with which a helper writes into the char* parameter #argno (spxSnprintf(buf, N, ...)), or None; a limit that is the helper's
+    own size parameter is evaluated with the caller's argument (a constant or sizeof of the array)"""
     g = fb.funcs.get(callee_u)
     if g is None or argno >= len(g.params):
         return None
@@ -70,8 +71,15 @@ def helper_limit(fb, callee_u, argno):
             a = n.args()
             if render(a[0]) == pname:
                 v = const_int(a[1])
-                if v is not None:
-                    lim = max(lim or 0, v)
+                if v is None and call_args is not None:
+                    sz = strip(a[1])
+                    if sz.k == 'DeclRefExpr' and sz.dk == 'parm':
+                        k = [i for i, (pn, pt) in enumerate(g.params) if pn == sz.n]
+                        if k and k[0] < len(call_args):
+                            v = const_int(call_args[k[0]])
+                if v is None:
+                    return None
+                lim = max(lim or 0, v)
     return lim
 
 
@@ -204,7 +212,7 @@ def classify_use(fb, f, arr, n, ext):
             return 'ok', 'read-only argument of ' + nm
         if nm in ('strcpy', 'strcat', 'sprintf', 'gets', 'sscanf', 'vsprintf'):
             return ('bad', 'unbounded %s into %s[%d]' % (nm, arr.n, ext)) if pos == 0 else ('ok', 'source argument')
-        lim = helper_limit(fb, p.u, pos) if pos is not None else None
+        lim = helper_limit(fb, p.u, pos, args) if pos is not None else None
         if lim is None and pos is not None:
             lim = index_helper_limit(fb, p, pos, args)
         if lim is not None:
